@@ -8,7 +8,12 @@ Inductive c06_op :=
 | OAdd (d l u : bytes) (pay : Z) (ok : bool)          (* Add / Register / Listen: accepted? *)
 | ODel (d l u : bytes)                                (* Del / UnRegister / Listener.Close *)
 | OGet (h p u : bytes) (res : option Z)               (* raw Routers.Get: payload found *)
-| OVhost (canon : bool) (h p u : bytes) (res : option Z).
+| OVhost (canon : bool) (h p u : bytes) (res : option Z)
+| ODropped (canon : bool) (h p u : bytes) (res : option Z).
+    (* Muxer.handle: a connection was routed (the client got the answer of the success hook), then the
+       listener it was routed to closed before the hand-over; res = the listener that received the
+       connection afterwards (must be None: the connection is closed, never handed to another route).
+       The operation removes the routed triple from the table. *)
     (* getVhost / getListener: GetRouteConfig, or which Listener accepted a CONNECT / ClientHello;
        canon: the host went through CanonicalHost first (CONNECT) *)
 
@@ -62,6 +67,15 @@ Fixpoint check_router (w : rt_walk_src) (s : rstate Z) (spec : list (route Z)) (
           if negb (optZ_eqb (pay_of (rt_get_vhost_g w s h' p u)) res) then 10 * i + 3
           else if negb (optZ_eqb (pay_of (rs_best_match spec h' p u)) res) then 10 * i + 6
           else check_router w s spec (i + 1) r
+      | ODropped canon h p u res =>
+          let h' := req_host canon h in
+          match rt_get_vhost_g w s h' p u, rs_best_match spec h' p u with
+          | Some x, Some y =>
+              if negb (optZ_eqb None res) then 10 * i + 6
+              else check_router w (rt_del s (rt_dom x) (rt_loc x) (rt_user x))
+                                (rs_del spec (rt_dom y) (rt_loc y) (rt_user y)) (i + 1) r
+          | _, _ => 10 * i + 3        (* the implementation routed it, the model finds no route *)
+          end
       end
   end.
 
@@ -203,6 +217,11 @@ Fixpoint C06_holds_router (spec : list (route Z)) (ops : list c06_op) : bool :=
   | OGet _ _ _ _ :: r => C06_holds_router spec r
   | OVhost canon h p u res :: r =>
       optZ_eqb (pay_of (rs_best_match spec (req_host canon h) p u)) res && C06_holds_router spec r
+  | ODropped canon h p u res :: r =>
+      match rs_best_match spec (req_host canon h) p u with
+      | Some y => optZ_eqb None res && C06_holds_router (rs_del spec (rt_dom y) (rt_loc y) (rt_user y)) r
+      | None => false
+      end
   end.
 
 Fixpoint C06_holds_http (spec : list (route Z)) (ops : list (hp_op * hp_out)) : bool :=
@@ -279,6 +298,11 @@ Fixpoint count_router (what : Z) (s : rstate Z) (ops : list c06_op) : Z :=
            (if (what =? 8) && (9 <=? Z.of_nat (length (rt_split h'))) && negb (bytes_eqb (rt_dom x) (lower h')) &&
                negb (bytes_eqb (rt_dom x) rt_star) && (Z.of_nat (length (rt_split (rt_dom x))) <=? 3) then 1 else 0)
        end) + count_router what s r
+  | ODropped canon h p u _ :: r =>
+      match rt_get_vhost s (req_host canon h) p u with
+      | Some x => (if what =? 9 then 1 else 0) + count_router what (rt_del s (rt_dom x) (rt_loc x) (rt_user x)) r
+      | None => count_router what s r
+      end
   end.
 Definition router_counter (what : Z) (c : case) : Z :=
   match c with CRouter _ ops => count_router what rt_empty ops | _ => 0 end.
@@ -293,6 +317,9 @@ Definition http_counter (what : Z) (c : case) : Z :=
                 (if (what =? 0) && negb dialed then 1 else 0) +
                 (if (what =? 1) && hp_out_eqb out HNotFound then 1 else 0) +
                 (if (what =? 2) && (proto =? 1) then 1 else 0) +
+                (* Host headers that spell a pool key: they end in ".<b64>.<b64>..<id>", i.e. contain ".." *)
+                (if (what =? 7) && hp_out_eqb out HNotFound && (4 <=? Z.of_nat (length (rt_split host))) &&
+                    existsb (fun l => match l with [] => true | _ => false end) (rt_split host) then 1 else 0) +
                 (if (what =? 6) && (9 <=? Z.of_nat (length (rt_split host))) && negb (hp_out_eqb out HNotFound) then 1 else 0)
             | (HRegister _ _ _ _, out) => if (what =? 3) && hp_out_eqb out HRegConflict then 1 else 0
             | (HConnect _ _, out) => if (what =? 4) && negb (hp_out_eqb out HNotFound) then 1 else 0
